@@ -1722,6 +1722,21 @@ def cases(tier):
            "rwa": ["off", "ge", "one", "ge2"], "order": [4] if quick else ORDERS,
            "nref": [1] if quick else [1, 2], "t0": [0.0], "bctx": list(BCTX)}
     cs += product(dom, lambda c: ok_closed(c) and (c["rwa"] == "off" or c["bctx"] == "H"))
+    # Lindblad generators (every representation): propagate called inside `with
+    # eigenbasis_of(X)`; in the eigenbasis of a complex Hermitian operator the jump operators the
+    # propagator reads are complex matrices.  Without PureDephasing: its rate matrix is a plain
+    # array that the propagator applies element-wise in whatever basis is current, i.e. inside a
+    # context it IS a different generator (24 of 24 Lorentzian cases differ on the unchanged tree,
+    # by design: the package's examples dephase in the exciton basis this way)
+    for d, gens_b in ((2, ["01", "S01"]), (3, ["12+21", "10+02", "S12"]), (4, ["13+S12"])):
+        if quick and d == 4:
+            continue
+        dom = {"sec": ["lindblad"], "dim": [d], "ham": ["coupled"] if quick else ["coupled", "cross"]
+               if d > 2 else ["coupled", "degenerate"], "scale": [0.25, 1.0], "axis": [AX_SHORT],
+               "gen": gens_b[:2] if quick else gens_b, "form": forms,
+               "pdeph": ["none"], "rwa": ["off"], "order": [4] if quick else ORDERS,
+               "nref": [1] if quick else [1, 2], "mix": [False], "bctx": list(BCTX)}
+        cs += product(dom, ok_lind)
     for d, gen, orders in ((3, "12+21", ORDERS), (2, "01", [4]), (4, "12+21", [4])):
         if quick and d != 3:
             continue
@@ -1830,7 +1845,10 @@ def run(run):
                 "rotating and laboratory frame) is made inside `with eigenbasis_of(X)` (X = the "
                 "Hamiltonian / another real symmetric / another complex Hermitian operator), results "
                 "are read after leaving the context; all clauses of the closed section, equality "
-                "with the calls made outside, stored state at index 0 = input state.  Conversion "
+                "with the calls made outside, stored state at index 0 = input state; the same three contexts "
+                "around propagate for Lindblad generators without pure dephasing (every "
+                "representation; in a complex eigenbasis the jump operators read by the "
+                "propagator are complex): all clauses of the lindblad section.  Conversion "
                 "direction: every rotating-frame evolution of every section goes rotating -> "
                 "laboratory -> rotating (-> rotating again) -> laboratory through convert_from_RWA "
                 "/ convert_to_RWA (class R identities, flags); closed cases convert the "
@@ -1894,6 +1912,10 @@ def run(run):
         "admissible case here, block-diagonal S; e.g. 3 levels, H=diag(0,.16,.22), "
         "set_rwa([0,1]), propagate inside eigenbasis_of(fully coupled operator): result differs "
         "from the call outside by O(1)); rwa != off is therefore crossed with X = H only",
+        "basis context x PureDephasing is NOT claimed: the dephasing rates are a plain array "
+        "applied element-wise in the current basis, so a call inside eigenbasis_of(X) is by "
+        "design a different generator (used that way by the package to dephase in the exciton "
+        "basis)",
         "conversion direction: convert_to_RWA(ham) is called with the Hamiltonian that defines "
         "the frame (set_rwa done).  Before /repo a959609 a laboratory-frame StateVectorEvolution "
         "carried no is_in_rwa attribute and its convert_to_RWA / convert_from_RWA raised "
